@@ -589,3 +589,6 @@ def run(ck):
     ck.run_rule("C01.T2r", "register name table and spellings", 14, rule_T2_registers)
     ck.run_rule("C01.T3", "bit substitution, byte order and operand-word order for every row", 252, rule_T3)
     ck.run_rule("C01.T4", "inline value ranges fit their field widths", 10, rule_T4)
+    from . import c04
+    ck.run_rule("C04.R1", "PC-relative forms: rel_address = '.' + 2 + preceding operand words (all rows)", 150, c04.rule_R1)
+    ck.run_rule("C04.R3", "branch displacement field: accept set and value", 8, c04.rule_R3)
